@@ -4,6 +4,7 @@ import StorageModel.C12.Exact
 import StorageModel.C12.Reader
 import StorageModel.C12.Fix
 import StorageModel.C12.LexProofs
+import StorageModel.C12.Typed
 import StorageModel.Generated.Grammar
 /-
   C12 — Boolean connectives group as written: parentheses, precedence, case, spacing.
@@ -41,6 +42,7 @@ open StorageModel.C12 StorageModel.Generated
 
 abbrev G : ParserNums := Generated.boolExprParser
 abbrev L : ListenerShape := Generated.boolListener
+abbrev TS : TransformShape := Generated.boolTransform
 
 variable {α : Type}
 
@@ -67,6 +69,11 @@ theorem listener_is_repaired : Generated.boolListener = repairedShape := by deci
 theorem keywords_are_expected :
     Generated.keywords = expectedKeywords ∧ Generated.wsChars = [' ', '\n', '\t', '\r'] ∧
       Generated.lparenChars = ['('] ∧ Generated.rparenChars = [')'] := by decide
+
+/-- `BooleanLogicExprNode.TypeTransformBool`, `UntypedNotExprNode.TypeTransformBool`, `EvalBool` of
+    `AndExprNode` / `OrExprNode` / `NotExprNode` and the `transformTypes` glue are written the way
+    `transform` / `T.eval` follow them: one typed node per untyped node, no rewrite of the tree. -/
+theorem transform_is_plain : Generated.boolTransform = plainTransform := by decide
 
 theorem code_eq (ts : List (Tok α)) : code ts = untypedFixed G ts := by
   simp [code, untypedL, listener_is_repaired]
@@ -128,6 +135,93 @@ theorem pipeline_reads (isBool : α → Bool) (w : W α) :
       rw [allBool_readS, h] at this
       cases this
     | some t => exact ⟨t, hq_some t ht, fun env => transform_eval isBool env _ t ht⟩
+
+/-! ## the typed tree (after `TypeTransformBool`) -/
+
+/-- the model of the whole of `ast.Parse`, with the typing code found in the source -/
+abbrev typed (isBool : α → Bool) (ts : List (Tok α)) : Option (Res α) := queryT TS L G isBool ts
+
+theorem typed_eq (isBool : α → Bool) (ts : List (Tok α)) : typed isBool ts = some (query L G isBool ts) := by
+  simp [typed, queryT, transform_is_plain]
+
+/-- `ast.Parse` on a skeleton, with the typing code as it is: the spec's answer. -/
+theorem typed_pipeline_reads (isBool : α → Bool) (w : W α) :
+    typed isBool w.render = some (specQuery isBool w.render) := by
+  rw [typed_eq, (pipeline_reads isBool w).1]
+
+theorem query_ok_iff (isBool : α → Bool) (w : W α) (t : T α) :
+    query L G isBool w.render = .ok t ↔ transform isBool w.readS = some t := by
+  have hc : untypedL L G w.render = some w.readS := parse_render w
+  simp only [query, hc]
+  cases transform isBool w.readS <;> simp
+
+/-- **The typed tree is a bracketing of the written text**: read in order (left operand,
+    connective, right operand; `not` before its operand) it is the written token list without the
+    parentheses.  However large the skeleton and however its parts are related (equal operands,
+    the same atoms grouped differently, mirrored operands): no atom, connective or `not` is
+    dropped, duplicated, replaced or moved by the listener or by typing — only grouped, and
+    (`pipeline_reads`) grouped as intended. -/
+theorem typed_tree_is_a_bracketing (isBool : α → Bool) (w : W α) (t : T α)
+    (h : typed isBool w.render = some (.ok t)) :
+    t.inorder = w.render.filter (fun x => !x.isParen) := by
+  rw [typed_eq] at h
+  have ht := (query_ok_iff isBool w t).1 (Option.some.inj h)
+  rw [transform_inorder isBool _ t ht, readS_inorder, flat_eq_filter]
+
+/-- non-vacuity: `(p and (q or r)) or ((p and q) or r)` is accepted and typed -/
+example : ∃ t, typed (fun (_ : Nat) => true)
+    (W.grpOp (.atomOp (.sym 0) .and (.grp (.atomOp (.sym 1) .or (.atom (.sym 2))))) .or
+      (.grp (.grpOp (.atomOp (.sym 0) .and (.atom (.sym 1))) .or (.atom (.sym 2))))).render = some (.ok t) :=
+  ⟨_, by rw [typed_eq, (pipeline_reads _ _).1]; rfl⟩
+
+/-- **Both operands of a connective are kept, whatever they look like**: the typed tree of
+    `(g) op (w)` is `op (typed g) (typed w)`, of `not ((g) op (w))` its negation, and its value is
+    Go's `&&` / `||` of the two values — in particular when `g` and `w` are the same atoms and
+    connectives grouped differently (their `String()` is then equal, `show_forgets_grouping`),
+    or are equal. -/
+theorem regrouped_operands_both_kept (isBool : α → Bool) (g w : W α) (o : Op) (tg tw : T α)
+    (hg : query L G isBool g.render = .ok tg) (hw : query L G isBool w.render = .ok tw) :
+    query L G isBool (W.grpOp g o (.grp w)).render = .ok (T.bin o tg tw) ∧
+    query L G isBool (W.not (.grp (.grpOp g o (.grp w)))).render = .ok (.not (T.bin o tg tw)) ∧
+    ∀ env, (T.bin o tg tw).eval env = o.apply (tg.eval env) (tw.eval env) := by
+  have hg' := (query_ok_iff isBool g tg).1 hg
+  have hw' := (query_ok_iff isBool w tw).1 hw
+  have hr : (W.grpOp g o (.grp w)).readS = .bin o g.readS w.readS := by
+    cases o with
+    | or => rfl
+    | and => exact readS_grpOp_and_noOr g (.grp w) rfl
+  refine ⟨?_, ?_, fun env => T.bin_eval o tg tw env⟩
+  · rw [query_ok_iff, hr, transform_bin, hg', hw']; rfl
+  · rw [query_ok_iff]
+    show transform isBool (.not (W.grpOp g o (.grp w)).readS) = _
+    rw [transform_not, hr, transform_bin, hg', hw']; rfl
+
+/-- non-vacuity, and the input a String()-based "X or X is X" simplification gets wrong: the
+    operands `p and (q or r)` and `(p and q) or r` are the same text up to parentheses, the query
+    `(p and (q or r)) or ((p and q) or r)` is true for p = false, r = true; its left operand alone is
+    false. -/
+example :
+    (W.atomOp (Atom.sym 0) .and (.grp (.atomOp (.sym 1) .or (.atom (.sym 2))))).flat =
+      (W.grpOp (.atomOp (Atom.sym 0) .and (.atom (.sym 1))) .or (.atom (.sym 2))).flat ∧
+    (W.grpOp (.atomOp (Atom.sym 0) .and (.grp (.atomOp (.sym 1) .or (.atom (.sym 2))))) .or
+      (.grp (.grpOp (.atomOp (.sym 0) .and (.atom (.sym 1))) .or (.atom (.sym 2))))).readS.eval (fun i => i == 2) = true ∧
+    (W.atomOp (Atom.sym 0) .and (.grp (.atomOp (.sym 1) .or (.atom (.sym 2))))).readS.eval (fun i => i == 2) = false := by
+  decide
+
+/-- `not` of a typed operand is one `NotExprNode` around it (two `not`s stay two). -/
+theorem typed_not_negates (isBool : α → Bool) (w : W α) (t : T α)
+    (h : query L G isBool w.render = .ok t) :
+    query L G isBool (W.not (.grp w)).render = .ok (.not t) ∧
+    query L G isBool (W.not (.grp (.not (.grp w)))).render = .ok (.not (.not t)) ∧
+    ∀ env, (T.not (.not t)).eval env = t.eval env := by
+  have h' := (query_ok_iff isBool w t).1 h
+  refine ⟨?_, ?_, fun env => by simp [T.eval]⟩
+  · rw [query_ok_iff]
+    show transform isBool (.not w.readS) = _
+    rw [transform_not, h']; rfl
+  · rw [query_ok_iff]
+    show transform isBool (.not (.not w.readS)) = _
+    rw [transform_not, transform_not, h']; rfl
 
 /-! ## clause 4 (headline): `and` binds tighter than `or`, independent of the order -/
 
